@@ -156,6 +156,34 @@ func (g *gen) span(label string) (string, string) {
 	return Prefixes[i], Prefixes[j]
 }
 
+// raceEFOS sometimes makes an excising step create an EFOS while the excise is
+// in flight (see efosrace.go); only in profiles that use EFOS at all.
+func (g *gen) raceEFOS(label string, s *Step) {
+	if g.p.W["efos"] == 0 || len(g.efos) >= g.p.MaxEFOS || rapid.IntRange(0, 9).Draw(g.t, label+"race") >= 4 {
+		return
+	}
+	s.ID2 = g.newID()
+	// the first protected range usually overlaps the excise span
+	a, b := s.A, s.B
+	switch rapid.IntRange(0, 3).Draw(g.t, label+"racesp") {
+	case 0:
+		a, b = g.span(label + "racer")
+	case 1:
+		// widen to the left / right by one prefix
+		if i := prefixIndex(a); i > 0 {
+			a = Prefixes[i-1]
+		}
+	}
+	s.Spans = [][2]string{{a, b}}
+	if ib := prefixIndex(b); ib+2 < len(Prefixes) && rapid.Bool().Draw(g.t, label+"racetwo") {
+		c := rapid.IntRange(ib+1, len(Prefixes)-2).Draw(g.t, label+"racec")
+		d := rapid.IntRange(c+1, len(Prefixes)-1).Draw(g.t, label+"raced")
+		s.Spans = append(s.Spans, [2]string{Prefixes[c], Prefixes[d]})
+	}
+	g.efos = append(g.efos, s.ID2)
+	g.efosRg[s.ID2] = s.Spans
+}
+
 // delSpan draws the bounds of a DeleteRange: mostly bare prefixes, sometimes
 // arbitrary (suffixed) user keys — DeleteRange accepts any start < end.
 func (g *gen) delSpan(label string) (string, string) {
@@ -1002,6 +1030,7 @@ func (g *gen) emit(label, kind string) {
 			s.A, s.B = g.span(label + "ex")
 			exA, exB = s.A, s.B
 			g.sdNote(Op{K: "delrange", A: s.A, B: s.B})
+			g.raceEFOS(label, &s)
 		}
 		g.st = g.st.ApplyIngest(s.Tables, exA, exB)
 		for _, t := range s.Tables {
@@ -1025,6 +1054,7 @@ func (g *gen) emit(label, kind string) {
 		n.exciseSpan(s.A, s.B)
 		g.st = n
 		g.sdNote(Op{K: "delrange", A: s.A, B: s.B})
+		g.raceEFOS(label, &s)
 	case "snap":
 		s.ID = g.newID()
 		g.snaps = append(g.snaps, s.ID)
